@@ -24,6 +24,7 @@ EXPLANATION = (
     "(flat slot index >= n_states), built over the same device x batch x slot shape as the states and "
     "travelling through the same pmap / scan positions, in both shuffle branches.  Does not decide "
     "equality up to rounding or identical iteration counts, nor runtime sharding behaviour of JAX."
+    ' Also decides (R3.5) that no function of the package writes a module-level or class-level container and that no solver writes into the problem object it was given - a cache of batched states, masks or compiled kernels kept there would be shared with solvers of another batch size or device count.'
 )
 RULES = {
     "R3.1": "synchronous kernels: identity scan carry, broadcast operands, and no batch index surviving un-batching (slot outputs depend on their own slot only)",
